@@ -268,6 +268,7 @@ func cmdCheck(argv []string) int {
 			return true
 		})
 	}
+	dumpSiteStats()
 	fmt.Printf("symgo: %s %s: exit %d; %d queries (%d sat, %d unsat, %d unknown), solver %.1fs, wall %.1fs\n",
 		id, *tier, exit, stats.Queries, stats.Sat, stats.Unsat, stats.Unknown, stats.SolveTime.Seconds(), time.Since(start).Seconds())
 	return exit
